@@ -3,9 +3,11 @@
 // Oracle (from the property text): for any block B on top of a chain, the observational snapshot S — every local
 // *query result* the property lists — taken before B's local-index updates are applied must equal S after the
 // updates have been applied and then removed. Two removal paths are driven:
-//   (i)  the executor's EventAddBlock / EventDelBlock KV sets written to the blockchain db exactly as
-//        BlockStore.AddTxs / DelTxs write them (in order, one batch, nil value = delete);
-//   (ii) real ProcessBlock followed by the node's own rollback (BlockChain.Rollback -> disBlock -> DelTxs).
+//
+//	(i)  the executor's EventAddBlock / EventDelBlock KV sets written to the blockchain db exactly as
+//	     BlockStore.AddTxs / DelTxs write them (in order, one batch, nil value = delete);
+//	(ii) real ProcessBlock followed by the node's own rollback (BlockChain.Rollback -> disBlock -> DelTxs).
+//
 // Raw db differences that no query reads are counted as information only.
 package c14
 
@@ -28,7 +30,18 @@ const (
 	// knownFailedRecv: coins.ExecLocal adds a *failed* (ExecPack) transfer's amount to the receiver's AddrReciver
 	// total, the inherited DriverBase.ExecDelLocal skips non-ExecOk receipts, so the amount is never subtracted.
 	knownFailedRecv = "C14-failed-transfer-receiver-not-undone"
+	// knownMvccSameHash: for a block that changes no state (StateHash == parent's), AddMVCC overwrites the
+	// state-hash -> version entry of the parent version and DelMVCC deletes it, so the parent's version can no longer be
+	// looked up (GetVersion / GetMaxVersion fail; a second DelMVCC for the parent fails too).
+	knownMvccSameHash = "C14-mvcc-unchanged-state-hash-version-lost"
 )
+
+// tolerance says which listed known findings are tolerated by exact signature (strict = zero value).
+type tolerance struct{ failedRecv, mvccSameHash bool }
+
+func listed() tolerance {
+	return tolerance{failedRecv: lib.Known(knownFailedRecv), mvccSameHash: lib.Known(knownMvccSameHash)}
+}
 
 func TestMain(m *testing.M) { lib.Main(m) }
 
@@ -99,6 +112,24 @@ func unexplained(diffs []string, before, after snapshot, failed map[string]int64
 	return
 }
 
+// unexplainedMvcc removes the keys matching knownMvccSameHash's signature: for a block whose state hash equals its
+// parent's, exactly the lookups that go through that hash's version entry — GetVersion(hash) and GetMaxVersion — succeeded
+// before and report ErrNotFound after.
+func unexplainedMvcc(diffs []string, before, after snapshot, stateHash []byte) (rest []string, hit bool) {
+	lost := "err:" + types.ErrNotFound.Error()
+	for _, k := range diffs {
+		if (k == "mvcc:max" || k == "mvcc:version-of:"+hex.EncodeToString(stateHash)) &&
+			!strings.HasPrefix(before[k].enc, "err:") && after[k].enc == lost {
+			hit = true
+			continue
+		}
+		rest = append(rest, k)
+	}
+	return
+}
+
+func mvccHashKey(stateHash []byte) string { return ".-mvcc-.m." + string(stateHash) }
+
 func recvKey(addr string) string { return "LODB-coins-Addr:" + string(address.FormatAddrKey(addr)) }
 
 // ---- running one case ------------------------------------------------------------------------------------------
@@ -143,13 +174,14 @@ func (f blockFacts) nonTrivial() bool { return f.repeat || f.self || f.failed }
 
 type connected struct {
 	detail *types.BlockDetail
+	facts  blockFacts
 	before snapshot // S taken before the block's local updates, over the universe that includes the block's own items
 	hot    []string // addresses observed through the node API in `before`
 	failed map[string]int64
 }
 
 // runCase executes a chain case and returns a violation message ("" = the property held).
-func runCase(c chainCase, strict bool) (fail string, nonTrivial bool) {
+func runCase(c chainCase, tol tolerance) (fail string, nonTrivial bool) {
 	n := newNode(c.Cfg, mvccThroughExecutor())
 	defer n.Close()
 	u := newUniverse()
@@ -219,23 +251,35 @@ func runCase(c chainCase, strict bool) (fail string, nonTrivial bool) {
 			lib.Note("raw-db key differs after add+del (information only): "+keyClass(k), 1)
 		}
 		if len(d) > 0 {
-			rest, tolerated := d, []string(nil)
-			if !strict {
-				rest, tolerated = unexplained(d, before, after, failed)
+			// listed known findings are tolerated by exact signature; the damaged raw keys are put back so that the
+			// rest of the chain is checked from an undamaged state
+			rest, repair := d, []string(nil)
+			if tol.failedRecv {
+				var addrs []string
+				if rest, addrs = unexplained(rest, before, after, failed); len(addrs) > 0 {
+					lib.ExcludedKnown(knownFailedRecv)
+					for _, a := range addrs {
+						repair = append(repair, recvKey(a))
+					}
+				}
+			}
+			if tol.mvccSameHash && f.noStateChange {
+				var hit bool
+				if rest, hit = unexplainedMvcc(rest, before, after, detail.Block.StateHash); hit {
+					lib.ExcludedKnown(knownMvccSameHash)
+					repair = append(repair, mvccHashKey(detail.Block.StateHash))
+				}
 			}
 			if len(rest) > 0 {
 				return fmt.Sprintf("block %d (height %d): after EventAddBlock + EventDelBlock %d observation(s) differ from before the block: %s",
 					bi, detail.Block.Height, len(rest), describe(rest, before, after)), nonTrivial
 			}
-			// known finding tolerated by exact signature: put the received totals back so that the rest of the
-			// chain is checked from an undamaged state
-			lib.ExcludedKnown(knownFailedRecv)
 			b := n.db.NewBatch(true)
-			for _, a := range tolerated {
-				if v, ok := rawBefore[recvKey(a)]; ok {
-					b.Set([]byte(recvKey(a)), []byte(v))
+			for _, k := range repair {
+				if v, ok := rawBefore[k]; ok {
+					b.Set([]byte(k), []byte(v))
 				} else {
-					b.Delete([]byte(recvKey(a)))
+					b.Delete([]byte(k))
 				}
 			}
 			if err := b.Write(); err != nil {
@@ -251,7 +295,7 @@ func runCase(c chainCase, strict bool) (fail string, nonTrivial bool) {
 		if msg := n.mvccApply(true, detail); msg != "" {
 			return fmt.Sprintf("block %d (height %d): AddMVCC after a clean add+del failed: %s", bi, detail.Block.Height, msg), nonTrivial
 		}
-		chain = append(chain, connected{detail: detail, before: before, hot: u.hot, failed: failed})
+		chain = append(chain, connected{detail: detail, facts: f, before: before, hot: u.hot, failed: failed})
 	}
 	if len(chain) == 0 {
 		return "", nonTrivial
@@ -261,10 +305,21 @@ func runCase(c chainCase, strict bool) (fail string, nonTrivial bool) {
 	k := c.RollbackTo % len(chain)
 	lib.ClassN("rollback:blocks_removed", len(chain)-k)
 	target := chain[k]
+	// knownMvccSameHash also breaks the removal of the *parent* of a no-state-change block (its version entry is gone
+	// once the child was removed): when that finding is listed and such a block is among the removed ones, the mvcc part
+	// of this path is left out.
+	skipMvcc := false
+	for _, cb := range chain[k:] {
+		skipMvcc = skipMvcc || (tol.mvccSameHash && cb.facts.noStateChange)
+	}
 	if msg := n.rollbackTo(target.detail.Block.Height - 1); msg != "" {
+		if skipMvcc && n.mvccInNode {
+			lib.ExcludedKnown(knownMvccSameHash)
+			return "", nonTrivial
+		}
 		return fmt.Sprintf("rollback to height %d failed: %s", target.detail.Block.Height-1, msg), nonTrivial
 	}
-	for i := len(chain) - 1; i >= k; i-- {
+	for i := len(chain) - 1; i >= k && !skipMvcc; i-- {
 		if msg := n.mvccApply(false, chain[i].detail); msg != "" {
 			return fmt.Sprintf("rollback: DelMVCC of height %d failed: %s", chain[i].detail.Block.Height, msg), nonTrivial
 		}
@@ -275,7 +330,13 @@ func runCase(c chainCase, strict bool) (fail string, nonTrivial bool) {
 	after := n.snap(&ur)
 	want := snapshot{}
 	for key, o := range target.before {
+		if skipMvcc && strings.HasPrefix(key, "mvcc:") {
+			continue
+		}
 		want[key] = o
+	}
+	if skipMvcc {
+		lib.ExcludedKnown(knownMvccSameHash)
 	}
 	failed := map[string]int64{}
 	for _, cb := range chain[k:] {
@@ -289,17 +350,18 @@ func runCase(c chainCase, strict bool) (fail string, nonTrivial bool) {
 			failed[a] += v
 		}
 	}
-	d := diff(want, after)
-	if len(d) > 0 {
+	if d := diff(want, after); len(d) > 0 {
 		rest := d
-		if !strict {
-			rest, _ = unexplained(d, want, after, failed)
+		if tol.failedRecv {
+			var addrs []string
+			if rest, addrs = unexplained(rest, want, after, failed); len(addrs) > 0 {
+				lib.ExcludedKnown(knownFailedRecv)
+			}
 		}
 		if len(rest) > 0 {
 			return fmt.Sprintf("after real add of %d block(s) and rollback to height %d, %d observation(s) differ from before block %d: %s",
 				len(chain)-k, target.detail.Block.Height-1, len(rest), target.detail.Block.Height, describe(rest, want, after)), nonTrivial
 		}
-		lib.ExcludedKnown(knownFailedRecv)
 	}
 	return "", nonTrivial
 }
@@ -361,7 +423,7 @@ func check(t lib.TB, test string, c chainCase) {
 		}
 	}()
 	lib.Eval()
-	msg, nt := runCase(c, !lib.Known(knownFailedRecv))
+	msg, nt := runCase(c, listed())
 	if nt {
 		lib.NonTrivialCase(c)
 	}
@@ -451,14 +513,9 @@ func TestPropLocalUndo(t *testing.T) {
 
 // ---- pinned known finding --------------------------------------------------------------------------------------
 
-// TestKnown_FailedTransferReceiver: block 1 funds B with 1 coin; block 2 holds one transfer B -> C of far more than
-// B owns (receipt ExecPack). Adding then removing block 2's local updates must leave C's received total at 0.
-func TestKnown_FailedTransferReceiver(t *testing.T) {
-	defer lib.Flush()
-	c := chainCase{Cfg: variant{Quick: true}, Blocks: [][]txSpec{
-		{{Kind: "transfer", From: 0, To: 2, Amount: 1e8, Fee: 1e5}},
-		{{Kind: "transfer", From: 2, To: 3, Amount: 1e12, Fee: 1e5}},
-	}, RollbackTo: 1}
+// pinned runs a minimal hand-written case strictly. If it fails, the failure must be exactly the named finding (the
+// same case passes once only that signature is tolerated); then it is a KNOWN-FINDING when listed, a violation otherwise.
+func pinned(t *testing.T, test, id string, only tolerance, c chainCase, what string) {
 	defer func() {
 		if r := recover(); r != nil {
 			if fe, ok := r.(fixtureErr); ok {
@@ -467,16 +524,37 @@ func TestKnown_FailedTransferReceiver(t *testing.T) {
 			panic(r)
 		}
 	}()
-	msg, _ := runCase(c, true)
+	msg, _ := runCase(c, tolerance{})
 	if msg == "" {
 		return
 	}
-	// the pinned case must fail for the listed reason only: the same case passes once the signature is tolerated
-	if tolerant, _ := runCase(c, false); tolerant != "" {
-		lib.Violation(t, prop, "TestKnown_FailedTransferReceiver", c, "pinned case fails beyond the known signature: %s", tolerant)
+	if beyond, _ := runCase(c, only); beyond != "" {
+		lib.Violation(t, prop, test, c, "pinned case fails beyond the signature of %s: %s", id, beyond)
 	}
-	lib.KnownOrViolation(t, prop, "TestKnown_FailedTransferReceiver", knownFailedRecv, c,
-		"a failed (ExecPack) coins transfer adds its amount to the receiver's AddrReciver total in ExecLocal, and block removal does not subtract it: "+firstLine(msg))
+	lib.KnownOrViolation(t, prop, test, id, c, what+": "+firstLine(msg))
+}
+
+// TestKnown_FailedTransferReceiver: block 1 funds B with 1 coin; block 2 holds one transfer B -> C of far more than
+// B owns (receipt ExecPack). Adding then removing block 2's local updates must leave C's received total at 0.
+func TestKnown_FailedTransferReceiver(t *testing.T) {
+	defer lib.Flush()
+	pinned(t, "TestKnown_FailedTransferReceiver", knownFailedRecv, tolerance{failedRecv: true},
+		chainCase{Cfg: variant{Quick: true}, Blocks: [][]txSpec{
+			{{Kind: "transfer", From: 0, To: 2, Amount: 1e8, Fee: 1e5}},
+			{{Kind: "transfer", From: 2, To: 3, Amount: 1e12, Fee: 1e5}},
+		}, RollbackTo: 1},
+		"a failed (ExecPack) coins transfer adds its amount to the receiver's AddrReciver total in ExecLocal and block removal does not subtract it")
+}
+
+// TestKnown_MvccUnchangedStateHash: on a chain without fees, block 1 holds one fee-less "none" transaction, so its state
+// hash equals the genesis state hash. Adding then removing block 1 must leave GetVersion(genesis state hash) == 0.
+func TestKnown_MvccUnchangedStateHash(t *testing.T) {
+	defer lib.Flush()
+	pinned(t, "TestKnown_MvccUnchangedStateHash", knownMvccSameHash, tolerance{mvccSameHash: true},
+		chainCase{Cfg: variant{Free: true, Quick: true}, Blocks: [][]txSpec{
+			{{Kind: "none", From: 0, To: 0, Fee: 0}},
+		}, RollbackTo: 0},
+		"removing a block that changed no state deletes the MVCC version entry of the parent state (shared state hash)")
 }
 
 func firstLine(s string) string {
